@@ -49,3 +49,37 @@ def date_str(y, m, d):
 
 def time_str(h, mi, s):
     return fmt(h, 2) + ':' + fmt(mi, 2) + ':' + fmt(s, 2)
+
+
+def iso_week1_monday(y):
+    """ordinal of the Monday of ISO week 1 of ISO year y: the week containing January 4th"""
+    jan4 = ordinal(y, 1, 4)
+    return jan4 - weekday_of_ordinal(jan4)
+
+
+def weeks_in_iso_year(y):
+    return (iso_week1_monday(y + 1) - iso_week1_monday(y)) // 7
+
+
+def iso_week_monday(y, w):
+    return iso_week1_monday(y) + 7 * (w - 1)
+
+
+def last_weekday_before(o, iso_dow):
+    """ordinal of the latest day strictly before ordinal o whose ISO weekday (Mon=1..Sun=7) is iso_dow"""
+    delta = (weekday_of_ordinal(o) - (iso_dow - 1)) % 7
+    if delta == 0:
+        delta = 7
+    return o - delta
+
+
+def next_weekday_after(o, iso_dow):
+    delta = ((iso_dow - 1) - weekday_of_ordinal(o)) % 7
+    if delta == 0:
+        delta = 7
+    return o + delta
+
+
+def date_str_of_ordinal(o):
+    d = date_of_ordinal(o)
+    return date_str(d.year, d.month, d.day)
